@@ -463,6 +463,8 @@ pub struct DumpOutcome {
     pub result: String,
     pub image: Option<Vec<u8>>,
     pub line: String,
+    /// where the image was stored (sidecar of the case line)
+    pub img_path: String,
 }
 
 /// one real dump of `t`, everything recorded
@@ -544,7 +546,7 @@ pub fn dump_case(prop: &str, id: &str, t: &Target, cfg: &DumpCfg, dest: &mut Rec
         t.pid,
         if extra_fields.is_empty() { String::new() } else { format!(" {}", extra_fields) }
     );
-    DumpOutcome { result, image, line }
+    DumpOutcome { result, image, line, img_path: format!("{}.img", base) }
 }
 
 #[allow(dead_code)]
